@@ -27,7 +27,7 @@ REAL = ["tpmstream.__main__ (argparse dispatch, convert, type, example)", "tpmst
         "tpmstream.data (bundled captures)", "all front-ends and printers"] + common.REAL_DECODER
 ASSUMPTIONS = ["in-process harness (patched sys.argv/stdin, redirect_stdout, SystemExit caught) is validated against real "
                "subprocess runs on a quota of cases", "files live in a per-run temporary directory outside /repo and /verif"]
-TIERS = {"quick": {"runs": 2900, "budget": 80, "run_timeout": 240}, "thorough": {"runs": 60000, "budget": 780, "run_timeout": 240}}
+TIERS = {"quick": {"runs": 2900, "budget": 150, "run_timeout": 240}, "thorough": {"runs": 60000, "budget": 780, "run_timeout": 240}}
 N_EXAMPLE_QUICK = 6
 N_EXAMPLE_SUBSET_QUICK = 370
 
